@@ -9,9 +9,10 @@ use serde_json::{json, Value};
 pub fn cps(s: &str) -> Vec<u32> { s.chars().map(|c| c as u32).collect() }
 
 /// A QR code of a given version for the render scenarios (payload irrelevant to the renderers)
-pub fn qr_of(v: usize, seed: u64) -> QRCode {
+pub fn qr_of(v: usize, seed: u64) -> QRCode { qr_of_level(v, v % 4, seed) }
+/// The same at a given error-correction level (the renderers are handed the whole QRCode, fields included)
+pub fn qr_of_level(v: usize, e: usize, seed: u64) -> QRCode {
     let mut r = rng(seed, 100 + v as u64);
-    let e = v % 4;
     let cap = capacity(2, e, v);
     let lo = if v == 1 { 1 } else { capacity(2, e, v - 1) + 1 };
     let n = r.gen_range(lo..=cap);
